@@ -9,6 +9,8 @@ import Qryn.Read.RawSqlTable
 import Driver.C07X
 import Driver.C08
 import Qryn.LogQL.SameShapeMetric
+import Driver.C08X
+import Qryn.LogQL.SameShapeMetricX
 namespace Driver.C10
 open Qryn Qryn.Lex Qryn.Sql
 
@@ -66,6 +68,14 @@ def handle : List String → Option String
     let (q2, r2) ← Driver.C08.query? b
     if !r1.isEmpty || !r2.isEmpty then none else
     some (if decide (LogQL.sameShapeM q1 q2) then "1" else "0")
+  | "c10sameshapemx" :: rest => do
+    -- two serialised metric queries of the labelled path (C08X syntax) separated by the token `|`
+    let a := rest.takeWhile (· != "|")
+    let b := (rest.dropWhile (· != "|")).drop 1
+    let (q1, r1) ← Driver.C08X.queryX? a
+    let (q2, r2) ← Driver.C08X.queryX? b
+    if !r1.isEmpty || !r2.isEmpty then none else
+    some (if decide (LogQL.sameShapeMX q1 q2) then "1" else "0")
   | ["c10tempo", fromNs, toNs, minDur, maxDur, limit, v2, idxTable, tracesTable, tags] => do
     let f ← fromNs.toInt?
     let t ← toNs.toInt?
